@@ -3,6 +3,7 @@
 
 #pragma once
 
+#include <atomic>
 #include <mutex>
 
 namespace rkcommon {
@@ -35,7 +36,8 @@ namespace rkcommon {
       bool update();
 
      private:
-      bool newValue{false};
+      // read by update() without holding the mutex
+      std::atomic<bool> newValue{false};
       T queuedValue;
       T currentValue;
 
